@@ -189,6 +189,16 @@ def corpus():
     parent = [None, 0, 1]
     out.append(make_case(D.topo_doc(rng, parent, 0, 2, ['mV', 'volt', 'uV'], kind='alg'), 'corpus'))
     out.append(make_case(D.topo_doc(rng, parent, 2, 0, ['mV', 'V_alias', 'volt'], kind='state', annotate=2), 'corpus'))
+    # past oracle bug: SymPy turns (y*y)**q (q a Quantity) into Abs(y)**(2*q); the flat evaluator must know Abs
+    out.append(make_case({
+        'name': 'm', 'cmeta': None, 'groups': [], 'connections': [], 'order': None,
+        'units': [{'name': 'ms', 'elems': [{'units': 'second', 'prefix': 'milli'}]}],
+        'components': [{'name': 'outer', 'variables': [
+            {'name': 'y', 'units': 'dimensionless', 'pub': 'in', 'priv': 'none', 'init': None, 'cmeta': None},
+            {'name': 'x', 'units': 'ms', 'pub': None, 'priv': None, 'init': '12', 'cmeta': None},
+            {'name': 't', 'units': 'second', 'pub': 'in', 'priv': None, 'init': None, 'cmeta': None}],
+            'maths': [[{'lhs': ['diff', 'x', 't'], 'rhs': ['pow', ['*', ['var', 'y'], ['var', 'y']], 2]}]]}],
+        'meta': {'signals': []}}, 'corpus'))
     return out
 
 
@@ -258,6 +268,9 @@ def evaluate_flat(model, eqs, free_numeric):
             if b == 0 and x < 0:
                 raise EvalError('division by zero')
             return b ** int(x)
+        if isinstance(e, sympy.Abs):
+            # SymPy rewrites (x**2)**q as Abs(x)**(2*q) for real x and a symbolic (Quantity) exponent q
+            return abs(ev(e.args[0]))
         if e.is_Rational:
             return Fraction(int(e.p), int(e.q))
         if e.is_Float:
